@@ -36,3 +36,81 @@ Definition model_statics (t : ty) : list Z :=
 
 Definition spec_statics (t : ty) : list Z :=
   [size t; align t; b2z (negb (is_fixed t)); b2z (stiff_eqb (stiffness t) Unlimited)].
+
+From Prophy Require Import PyDecode.
+
+Section VEq.
+  Variable veq : value -> value -> bool.
+  Fixpoint vlist_eqb (a b : list value) : bool :=
+    match a, b with
+    | [], [] => true
+    | x :: a', y :: b' => veq x y && vlist_eqb a' b'
+    | _, _ => false
+    end.
+End VEq.
+
+Fixpoint value_eqb (a b : value) {struct a} : bool :=
+  match a, b with
+  | VInt x, VInt y => x =? y
+  | VNone, VNone => true
+  | VSome x, VSome y => value_eqb x y
+  | VList xs, VList ys => vlist_eqb value_eqb xs ys
+  | VStruct xs, VStruct ys => vlist_eqb value_eqb xs ys
+  | VUnion i x, VUnion j y => Nat.eqb i j && value_eqb x y
+  | _, _ => false
+  end.
+
+(* outcome of a model decode, flattened: [0; consumed] / [exception code] *)
+Definition dec_flat (r : res (value * Z)) : list Z :=
+  match r with Ok (_, n) => [0; n] | Err x => [exn_code x] end.
+
+(* one decode case. obs = [0; consumed] or [exception code]; obs_v = the value the
+   implementation decoded (ignored on error).
+   result: [] when model and implementation agree on outcome, consumed length and value *)
+Definition model_decode_case (e : endian) (t : ty) (data : bytes) (obs : list Z) (obs_v : value) : list Z :=
+  let r := py_decode e t data in
+  let same_value := match r with Ok (v, _) => value_eqb v obs_v | Err _ => true end in
+  if beq (dec_flat r) obs && same_value then [] else 98 :: dec_flat r.
+
+(* property oracle for round trips (C02): decoding the canonical bytes of a legal, well-typed
+   value whose greedy tail ends aligned must consume everything and give the value back.
+   expects obs = [0; consumed] and the decoded value; result [] when the property holds *)
+Definition spec_roundtrip_case (e : endian) (t : ty) (v : value) (obs : list Z) (obs_v : value)
+           (reenc : bytes) : list Z :=
+  let w := wire e t v in
+  if beq obs [0; len w] && value_eqb obs_v v && beq reenc w then []
+  else [97; b2z (beq obs [0; len w]); b2z (value_eqb obs_v v); b2z (beq reenc w)].
+
+(* C19 oracle on two observed encodings, using only the segment map of the specification:
+   same length, scalars byte-reversed in place, padding zero in both *)
+Fixpoint all_zero (b : bytes) : bool :=
+  match b with [] => true | x :: r => (x =? 0) && all_zero r end.
+
+Fixpoint mirror_ok (l : list seg) (a b : bytes) : bool :=
+  match l with
+  | [] => match a, b with [], [] => true | _, _ => false end
+  | SInt w _ :: r =>
+      let n := Z.to_nat w in
+      (len (firstn n a) =? w) && beq (firstn n b) (rev (firstn n a)) && mirror_ok r (skipn n a) (skipn n b)
+  | SPad p :: r =>
+      let n := Z.to_nat p in
+      (len (firstn n a) =? p) && (len (firstn n b) =? p) &&
+      all_zero (firstn n a) && all_zero (firstn n b) && mirror_ok r (skipn n a) (skipn n b)
+  end.
+
+Definition spec_mirror_case (t : ty) (v : value) (obs_le obs_be : bytes) : list Z :=
+  if (len obs_le =? len obs_be) && mirror_ok (layout t v 0) obs_le obs_be then []
+  else [95; len obs_le; len obs_be].
+
+(* C04, Python side: observed [size; align; dynamic; unlimited] of a generated class *)
+Definition statics_case (t : ty) (obs : list Z) : list Z :=
+  let m := model_statics t in
+  let s := spec_statics t in
+  let model_ok := beq m obs in
+  (* the documented rules fix size only for fixed types *)
+  let spec_ok := match obs, s with
+                 | [osz; oal; ody; oun], [ssz; sal; sdy; sun] =>
+                     (oal =? sal) && (ody =? sdy) && (oun =? sun) && (if sdy =? 0 then osz =? ssz else true)
+                 | _, _ => false
+                 end in
+  if model_ok && spec_ok then [] else [94; b2z model_ok; b2z spec_ok] ++ m ++ s.
